@@ -1,9 +1,16 @@
 /- C02 — Object inheritance, late binding and visibility follow the object model.
-   Property theorems only.  `compile t` is the core vector the real builder produces for the object
+   Property theorems only.  (Round 2 adds, below the first block: the literal `get_idx_uncached`
+   loop and the `get_idx` cache — Model/ObjLit; `has_assertions` and `run_assertions` —
+   Model/ObjAssert; agreement with the definitional interpreter's object semantics —
+   Proofs/ObjEval; bare `super` values — Model/ObjSuper.)  `compile t` is the core vector the real builder produces for the object
    term `t` (checked on every run through the `verif_core_shape` hook); the four walkers are the
    models of `get_idx_uncached`, `has_field_include_hidden_idx`, `field_visibility_idx`,
    `fields_visibility`; `defs/chain/visSpec` is the language-level meaning. -/
 import JrsVerif.Proofs.Obj
+import JrsVerif.Proofs.ObjLit
+import JrsVerif.Proofs.ObjAssert
+import JrsVerif.Proofs.ObjEval
+import JrsVerif.Proofs.ObjSuper
 
 namespace JrsVerif.Obj
 
@@ -29,7 +36,7 @@ theorem get_super (t : OT) (l : Nat) (n : Name) :
     defines it (its `sup` index is the index of its own core). -/
 theorem get_sup_binding (cores : List Core) (idx : Nat) (n : Name) (f : Field) (l : Nat)
     (h : (f, l) ∈ getIdx cores idx n) :
-    ∃ fs, (cores.take idx)[l]? = some (.oop fs) ∧ lookup fs n = some f := by
+    ∃ fs a, (cores.take idx)[l]? = some (.oop fs a) ∧ lookup fs n = some f := by
   have := collect_sup_sound (cores.take idx).reverse 0 n f l h
   simpa using this
 
@@ -130,20 +137,283 @@ theorem extend_assoc (a b c : OT) : compile (.add (.add a b) c) = compile (.add 
     the definitions ending at the first plain one -/
 theorem plus_fold_order (fs gs : List Field) (n : Name) (f g : Field)
     (hf : lookup fs n = some f) (hg : lookup gs n = some g) (hadd : g.add = true)
-    (hplain : f.add = false) (hne : fs ≠ []) (hne' : gs ≠ []) :
-    (getIdx (compile (.add (.lit fs) (.lit gs))) 2 n) = [(g, 1), (f, 0)] := by
+    (hplain : f.add = false) (hne : fs ≠ []) (hne' : gs ≠ []) (a a' : Bool) :
+    (getIdx (compile (.add (.lit fs a) (.lit gs a'))) 2 n) = [(g, 1), (f, 0)] := by
   have e1 : fs.isEmpty = false := by cases fs <;> simp_all
   have e2 : gs.isEmpty = false := by cases gs <;> simp_all
   simp [getIdx, compile, e1, e2, collect, hf, hg, hadd, hplain]
 
 /-- non-vacuity: a 4-layer chain with a removed key in the middle and a `+:` field on top -/
 example :
-    let base : OT := .lit [⟨0, false, .normal, 10⟩, ⟨1, false, .hidden, 11⟩]
-    let mid : OT := .rm (.add base (.lit [⟨0, true, .normal, 20⟩])) [1]
-    let t : OT := .add (.add (.lit [⟨1, false, .normal, 5⟩]) mid) (.lit [⟨0, true, .unhide, 30⟩, ⟨1, true, .normal, 31⟩])
+    let base : OT := .lit [⟨0, false, .normal, 10⟩, ⟨1, false, .hidden, 11⟩] true
+    let mid : OT := .rm (.add base (.lit [⟨0, true, .normal, 20⟩] false)) [1]
+    let t : OT := .add (.add (.lit [⟨1, false, .normal, 5⟩] false) mid) (.lit [⟨0, true, .unhide, 30⟩, ⟨1, true, .normal, 31⟩] false)
     (compile t).length = 5 ∧ specGet t 0 = [⟨0, true, .unhide, 30⟩, ⟨0, true, .normal, 20⟩, ⟨0, false, .normal, 10⟩]
       ∧ specGet t 1 = [⟨1, true, .normal, 31⟩, ⟨1, false, .normal, 5⟩] ∧ specVis t 1 = some .normal
       ∧ fieldsEx (compile t) false = [0, 1] := by
+  decide
+
+/-! ## Round 2 — the loop as written, the cache, assertions, the interpreter's object semantics -/
+
+/-- C02.7 the statement-by-statement transliteration of `get_idx_uncached` (`first_add`, `add_stack`,
+    the four `GetFor` arms with their `skip.0 == 0` guards, `omit_only`, `break`, `insert(0, first)`,
+    `into_iter().rev()`, saturating `usize` arithmetic) returns, on EVERY core vector and start layer,
+    the contributions of the refactored walker `collect` in fold order (deepest first). -/
+theorem getIdxLit_eq (cores : List Core) (idx : Nat) (n : Name) (hok : ∀ c ∈ cores, CoreOk c) :
+    getIdxLit cores idx n = foldOrder (getIdx cores idx n) :=
+  getIdxLit_eq_collect cores idx n hok
+
+/-- … hence the loop as written folds exactly the language-level chain, for reads and `super` reads
+    on every constructible object (fewer than 2^64-1 layers) -/
+theorem getIdxLit_compile (t : OT) (l : Nat) (n : Name) (h : (compile t).length < USIZE_MAX) :
+    (getIdxLit (compile t) l n).map (·.map (·.1))
+      = if (specGet (takeTerm t l) n).isEmpty then none else some (specGet (takeTerm t l) n).reverse := by
+  rw [getIdxLit_eq _ _ _ (compile_coreOk t h), ← get_super_takeTerm]
+  simp only [foldOrder]
+  by_cases he : (getIdx (compile t) l n).isEmpty = true
+  · have : getIdx (compile t) l n = [] := by simpa using he
+    simp [this]
+  · have he' : getIdx (compile t) l n ≠ [] := by simpa using he
+    simp [he']
+
+example : ∀ c ∈ compile (.rm (.lit [⟨0, false, .normal, 1⟩] true) [0]), CoreOk c :=
+  compile_coreOk _ (by decide)
+
+/-- C02.8 the value cache of `get_idx`: a `Cached` entry is returned as is — `get_idx_uncached`
+    (hence every field body) is not run again, whatever the assertion state -/
+theorem cache_hit {K R : Type} [DecidableEq K] (unc : K → Cache K R → R × Cache K R) (a : Bool)
+    (k : K) (c : Cache K R) (v : R) (h : c.find k = some (.cached v)) :
+    getIdxCached unc a k c = (.ok v, c) := by
+  simp [getIdxCached, h]
+
+/-- a first read marks the key `Pending`, runs the uncached read and leaves `Cached(result)` -/
+theorem cache_fill {K R : Type} [DecidableEq K] (unc : K → Cache K R → R × Cache K R) (a : Bool)
+    (k : K) (c : Cache K R) (h : c.find k = none) :
+    (getIdxCached unc a k c).1 = .ok (unc k (c.insert k .pending)).1 ∧
+      (getIdxCached unc a k c).2.find k = some (.cached (unc k (c.insert k .pending)).1) := by
+  simp [getIdxCached, h, find_insert_self]
+
+/-- outside assertion running a cached read returns what the uncached one returned: after ANY call
+    that answered `ok r`, every later call on that cache (any body behaviour, any assertion state)
+    answers `ok r` and leaves the cache alone -/
+theorem cache_reread {K R : Type} [DecidableEq K] (unc unc' : K → Cache K R → R × Cache K R)
+    (a a' : Bool) (k : K) (c c' : Cache K R) (r : R) (h : getIdxCached unc a k c = (.ok r, c')) :
+    getIdxCached unc' a' k c' = (.ok r, c') := by
+  apply cache_hit
+  simp only [getIdxCached] at h
+  cases hf : c.find k with
+  | none =>
+    rw [hf] at h
+    simp only [Prod.mk.injEq, GetOut.ok.injEq] at h
+    rw [← h.2, ← h.1]; exact find_insert_self _ _ _
+  | some cv =>
+    rw [hf] at h
+    cases cv with
+    | cached w =>
+      simp only [Prod.mk.injEq, GetOut.ok.injEq] at h
+      rw [← h.2, ← h.1]; exact hf
+    | pending =>
+      cases a with
+      | false => simp at h
+      | true =>
+        simp only [Bool.not_true, Bool.false_eq_true, ↓reduceIte, Prod.mk.injEq, GetOut.ok.injEq] at h
+        rw [← h.2, ← h.1]; exact find_insert_self _ _ _
+
+/-- a `Pending` entry met outside assertion running is infinite recursion, and the cache is left
+    untouched; while the object's assertions run (`is_asserting`) it is recomputed instead -/
+theorem cache_pending {K R : Type} [DecidableEq K] (unc : K → Cache K R → R × Cache K R)
+    (k : K) (c : Cache K R) (h : c.find k = some .pending) :
+    getIdxCached unc false k c = (.infrec, c) ∧
+      (getIdxCached unc true k c).1 = .ok (unc k c).1 := by
+  simp [getIdxCached, h]
+
+/-- once cached, always cached with the same value: `get_idx` never loses or changes a `Cached`
+    entry as long as the bodies it runs (which can only go through `get_idx` again) do not -/
+theorem cache_keeps {K R : Type} [DecidableEq K] (unc : K → Cache K R → R × Cache K R)
+    (hu : ∀ k, KeepsCached (fun c => (unc k c).2)) (a : Bool) (k : K) :
+    KeepsCached (fun c => (getIdxCached unc a k c).2) :=
+  getIdxCached_keeps unc hu a k
+
+/-- C02.9 `has_assertions` of the object value the builder produces (`with_super`, `assert`,
+    `commit`, `with_fields_omitted`, `build`, `extend_from`) is exactly "some layer of the term has an
+    assertion" = "some core carries one" — an inherited assertion is never dropped, no matter which
+    operand was built or read first (the flag is a function of the term alone) -/
+theorem hasAssertions_exact (t : OT) :
+    (buildT t).cores = compile t ∧ (buildT t).hasAssertions = anyAssert t ∧
+      (buildT t).hasAssertions = (compile t).any Core.hasAssert := by
+  obtain ⟨h1, h2⟩ := buildT_spec t
+  exact ⟨h1, h2, h2.trans (anyAssert_eq_cores t)⟩
+
+/-- the initial `assertions_ran = !has_assertions` short-cut skips nothing -/
+theorem assertionsRan0_sound (t : OT) (h : (buildT t).assertionsRan0 = true) :
+    ∀ c ∈ (buildT t).cores, c.hasAssert = false := by
+  obtain ⟨h1, _, h3⟩ := hasAssertions_exact t
+  have hf : (buildT t).hasAssertions = false := by simpa [ObjV.assertionsRan0] using h
+  rw [h3] at hf
+  rw [h1]
+  intro c hc
+  have := List.any_eq_false.mp hf c hc
+  simpa using this
+
+/-- `sup { … }` (`with_super` path) and `sup + { … }` (`extend_from` path) build the same value -/
+theorem extend_paths_agree (x : OT) (fs : List Field) (a : Bool) :
+    evalLiteral (some (buildT x)) fs a = buildT (.add x (.lit fs a)) :=
+  evalLiteral_super_eq_add x fs a
+
+/-- C02.10 `RUNNING_ASSERTIONS` is restored by every `run_assertions` call, successful or failing,
+    under arbitrary re-entrancy: it is empty at quiescence -/
+theorem running_restored (w : World) (fuel : Nat) (o : ObjId) (st st' : ASt) (r : Bool)
+    (h : runAssertions w fuel o st = some (r, st')) : st'.running = st.running :=
+  (runAssertions_post w fuel o st r st' h).1.running_eq
+
+theorem running_empty_at_quiescence (w : World) (fuel : Nat) (o : ObjId) (st st' : ASt) (r : Bool)
+    (h0 : st.running = []) (h : runAssertions w fuel o st = some (r, st')) : st'.running = [] := by
+  rw [running_restored w fuel o st st' r h, h0]
+
+/-- a successful top-level run sets `assertions_ran` … -/
+theorem success_sets_ran (w : World) (fuel : Nat) (o : ObjId) (st st' : ASt)
+    (h0 : o ∉ st.running) (h : runAssertions w fuel o st = some (true, st')) : o ∈ st'.ran := by
+  rcases (runAssertions_post w fuel o st true st' h).2.1 rfl with h1 | h1
+  · exact h1
+  · exact absurd h1 h0
+
+/-- … a failing one leaves it `false` (the assertions are checked again by the next read) -/
+theorem failure_leaves_unran (w : World) (fuel : Nat) (o : ObjId) (st st' : ASt)
+    (h : runAssertions w fuel o st = some (false, st')) : o ∉ st'.ran :=
+  (runAssertions_post w fuel o st false st' h).2.2 rfl
+
+/-- after a successful run no assertion body of that object runs again, in any later call on any
+    object: every body executed by a call belongs to an object that had not run before the call -/
+theorem no_body_after_success (w : World) (fuel : Nat) (o : ObjId) (st st' : ASt) (r : Bool)
+    (h : runAssertions w fuel o st = some (r, st')) :
+    ∃ new, st'.log = new ++ st.log ∧ ∀ e ∈ new, e.1 ∉ st.ran :=
+  (runAssertions_post w fuel o st r st' h).1.log_ext
+
+theorem ran_is_monotone (w : World) (fuel : Nat) (o : ObjId) (st st' : ASt) (r : Bool)
+    (h : runAssertions w fuel o st = some (r, st')) : ∀ x ∈ st.ran, x ∈ st'.ran :=
+  (runAssertions_post w fuel o st r st' h).1.ran_mono
+
+/-- non-vacuity: two objects whose assertions read each other; both pass, each body runs once;
+    with a failing assertion in object 1 the run of 0 fails, nothing is marked as ran and the
+    running set is empty again -/
+example :
+    (runAssertions (fun o => if o = 0 then [some ⟨[1, 0], true⟩, none]
+        else [none, some ⟨[0], true⟩, some ⟨[1], true⟩]) 5 0 ⟨[], [], []⟩).map
+          (fun p => (p.1, p.2.ran, p.2.running, p.2.log))
+        = some (true, [0, 1], [], [(1, 2), (1, 1), (0, 0)]) ∧
+      (runAssertions (fun o => if o = 0 then [some ⟨[1], true⟩] else [some ⟨[0], false⟩]) 5 0
+          ⟨[], [], []⟩).map (fun p => (p.1, p.2.ran, p.2.running, p.2.log))
+        = some (false, [], [], [(1, 0), (0, 0)]) :=
+  ⟨rfl, rfl⟩
+
+/-- C02.11 the definitional interpreter's object semantics (`Eval.findDefs`: absolute `maskLow`
+    index over layers with key-removal markers) and the model of the implementation's walkers
+    (relative saturating skip) agree on EVERY core vector and start layer: the interpreter's read
+    loop takes exactly the contributions of `get_idx_uncached`, with the same `super` indices … -/
+theorem eval_read_eq_getIdx (nm : Nat → String) (hinj : ∀ a b, nm a = nm b → a = b)
+    (cores : List Core) (idx : Nat) (n : Name) :
+    cutFD (Eval.findDefs (toLayers nm cores) idx (nm n))
+      = (getIdx cores idx n).map (fun p => (p.2, toFD nm p.1)) := by
+  rw [findDefs_eq_defsGo nm hinj, cutFD_map, getIdx, collect_eq_cut]
+
+/-- … `"f" in super` / `objectHasAll` (`!(findDefs ls sup f).isEmpty`) is `has_field_include_hidden_idx` … -/
+theorem eval_has_eq_hasIdx (nm : Nat → String) (hinj : ∀ a b, nm a = nm b → a = b)
+    (cores : List Core) (idx : Nat) (n : Name) :
+    (!(Eval.findDefs (toLayers nm cores) idx (nm n)).isEmpty) = hasIdx cores idx n := by
+  rw [findDefs_eq_defsGo nm hinj, hasIdx, hasGo_eq_defsGo]
+  simp
+
+theorem eval_hasFieldAll_eq (nm : Nat → String) (hinj : ∀ a b, nm a = nm b → a = b)
+    (cores : List Core) (n : Name) :
+    Eval.hasFieldAll (toLayers nm cores) (nm n) = hasIdx cores cores.length n := by
+  have := eval_has_eq_hasIdx nm hinj cores cores.length n
+  simpa [Eval.hasFieldAll, toLayers] using this
+
+/-- … and `visOf` is `field_visibility_idx` (hence, by `visAll_eq_visIdx`, `fields_visibility`) -/
+theorem eval_visOf_eq_visIdx (nm : Nat → String) (hinj : ∀ a b, nm a = nm b → a = b)
+    (cores : List Core) (n : Name) :
+    Eval.visOf (toLayers nm cores) (nm n) = (visIdx cores cores.length n).map toVis := by
+  have h1 := findDefs_eq_defsGo nm hinj cores cores.length n
+  have hlen : (toLayers nm cores).length = cores.length := by simp [toLayers]
+  simp only [Eval.visOf, hlen, h1, List.map_map]
+  have hm : ((fun p : Nat × Eval.FieldDef => p.2) ∘ fun p : Nat × Field => (p.1, toFD nm p.2))
+      = (toFD nm) ∘ (fun p : Nat × Field => p.2) := rfl
+  rw [hm, ← List.map_map, visOf_go_eq]
+  simp only [visIdx, visGo_eq_defsGo, visWith_end]
+  cases visSpec (List.map (fun x => x.2) (defsGo (List.take cores.length cores).reverse 0 n)) <;> simp
+
+/-- on compiled terms both are the language-level meaning: same definitions, presence, visibility -/
+theorem eval_defs_compile (nm : Nat → String) (hinj : ∀ a b, nm a = nm b → a = b) (t : OT) (n : Name) :
+    (Eval.findDefs (toLayers nm (compile t)) (compile t).length (nm n)).map (·.2)
+      = (defs t n).map (toFD nm) := by
+  rw [findDefs_eq_defsGo nm hinj]
+  have := defsGo_compile t [] n
+  simp only [List.append_nil, defsGo, List.map_nil] at this
+  simp only [List.take_length, List.map_map]
+  rw [← this, List.map_map]
+  rfl
+
+theorem eval_hasFieldAll_compile (nm : Nat → String) (hinj : ∀ a b, nm a = nm b → a = b)
+    (t : OT) (n : Name) :
+    Eval.hasFieldAll (toLayers nm (compile t)) (nm n) = specHas t n := by
+  rw [eval_hasFieldAll_eq nm hinj, has_compile]
+
+theorem eval_visOf_compile (nm : Nat → String) (hinj : ∀ a b, nm a = nm b → a = b)
+    (t : OT) (n : Name) :
+    Eval.visOf (toLayers nm (compile t)) (nm n) = (specVis t n).map toVis := by
+  rw [eval_visOf_eq_visIdx nm hinj, vis_compile]
+
+/-- the hypotheses are satisfiable: `unary` is an injective naming -/
+example (t : OT) (n : Name) :
+    Eval.hasFieldAll (toLayers unary (compile t)) (unary n) = specHas t n :=
+  eval_hasFieldAll_compile unary unary_injective t n
+
+/-- presence and visibility agree on EVERY core vector and start layer (not only compiled ones) -/
+theorem has_iff_vis_cores (cores : List Core) (idx : Nat) (n : Name) :
+    hasIdx cores idx n = (visIdx cores idx n).isSome :=
+  hasIdx_eq_vis_isSome cores idx n
+
+/-- C02.12 bare `super` as a value (`StandaloneSuperCore`): an object built from ordinary objects
+    and `super` values by `+` and objectRemoveKey answers existence, per-name visibility and the
+    global field listing exactly as the ordinary object `flattenT x`, in which each `super` value
+    is ONE literal layer holding the resolved fields of the layers it stands for — in particular a
+    key removed inside those layers masks nothing outside them. -/
+theorem super_value_has (x : XT) (n : Name) : hasX (compileX x) n = specHas (flattenT x) n := by
+  rw [← has_compile, ← compileX_flatten]
+  simp only [hasX, hasIdx, hasGoX_flatten, List.map_reverse, List.length_map]
+  rw [List.take_of_length_le (by simp)]
+
+theorem super_value_vis (x : XT) (n : Name) : visX (compileX x) n = specVis (flattenT x) n := by
+  rw [← vis_compile, ← compileX_flatten]
+  simp only [visX, visIdx, visGoX_flatten, List.map_reverse, List.length_map]
+  rw [List.take_of_length_le (by simp)]
+
+theorem super_value_visAll (x : XT) (n : Name) : visAllX (compileX x) n = visX (compileX x) n := by
+  rw [super_value_vis, ← vis_compile, ← visAll_eq_visIdx, ← compileX_flatten]
+  simp only [visAllX, visAll, visAllGoX_flatten, List.map_reverse]
+
+/-- … and its field listings (objectFields/All, manifestation, `==`, `std.length`) are strictly
+    ascending and list exactly the fields of `flattenT x` -/
+theorem super_value_fields (x : XT) (h : Bool) (n : Name) :
+    n ∈ fieldsExX (compileX x) h ↔ n ∈ specFields (flattenT x) h := by
+  rw [fieldsExX_mem_iff_flatten, compileX_flatten, fieldsEx_mem_iff]
+
+/-- the handler update of `fields_visibility` is idempotent, so the repeated calls a bare-`super`
+    layer makes for one name (once per inner entry, always with the same resolved visibility) act
+    as one -/
+theorem updVis_idem (v : Vis) (cur : Option Vis) : updVis v (updVis v cur) = updVis v cur := by
+  cases v <;> cases cur <;> simp [updVis] <;> (rename_i c; cases c <;> simp)
+
+theorem super_value_fields_sorted (cs : List XCore) (h : Bool) : Sorted (fieldsExX cs h) :=
+  sorted_filter _ _ (sortDedup_sorted _)
+
+/-- the repaired defect, as an instance: `{a: 10} + s` with `s` = `super` above
+    `objectRemoveKey({a: 1, b: 2}, "a")` lists `a` and `b`; presence, visibility and listing agree -/
+example :
+    let inner : OT := .rm (.lit [⟨0, false, .normal, 1⟩, ⟨1, false, .normal, 2⟩] false) [0]
+    let x : XT := .add (.base (.lit [⟨0, false, .normal, 10⟩] false)) (.sup inner 2)
+    fieldsExX (compileX x) false = [0, 1] ∧ hasX (compileX x) 0 = true
+      ∧ visAllX (compileX x) 0 = some .normal ∧ specFields (flattenT x) false = [0, 1] := by
   decide
 
 end JrsVerif.Obj
